@@ -8,7 +8,7 @@ import "fmt"
 // correctly - never silently wrong.
 
 // LimitKinds lists the generated shapes.
-var LimitKinds = []string{"locals", "params", "free", "free-returned", "free-nested", "selectors", "array-literal", "long-if", "long-loop", "long-logical", "consts-closure", "globals-selstore", "map-literal"}
+var LimitKinds = []string{"locals", "params", "free", "free-returned", "free-nested", "selectors", "array-literal", "long-if", "long-loop", "long-logical", "consts-closure", "globals-selstore", "map-literal", "consts-dup"}
 
 // LimitSizes are the boundary sizes per kind.
 func LimitSizes(kind string) []int {
@@ -22,6 +22,9 @@ func LimitSizes(kind string) []int {
 	case "long-if", "long-loop", "long-logical":
 		// number of filler statements (9 bytes of code each: 7000 stays below offset 65536, 9000 goes beyond): jump operands below and beyond 16 bits
 		return []int{7000, 9000}
+	case "consts-dup":
+		// a duplicated constant first (de-duplication shifts every later index by one), then n distinct ones
+		return []int{250, 255, 256, 257, 300, 600}
 	case "consts-closure", "globals-selstore":
 		// two-byte operands (constant index of CLOSURE / CONST, global index of the selector store) below and beyond one byte
 		return []int{250, 255, 256, 257, 300, 600}
@@ -122,6 +125,21 @@ func Limits(kind string, n int) *Program {
 		body = append(body, &Return{X: I("x")})
 		return &Program{Main: []Stmt{Def("f", &FuncLit{Params: []string{"c"}, Body: body}),
 			Def("out", &ArrayLit{Elems: []Expr{C(I("f"), True()), C(I("f"), False())}}), Set(I("f"), Undef())}}
+	case "consts-dup":
+		main := []Stmt{Def("d0", S(`"dup"`)), Def("d1", S(`"dup"`))}
+		var elems []Expr
+		for i := 0; i < n; i++ {
+			main = append(main, Def(v(i), N(fmt.Sprint(1000+i))))
+		}
+		for _, i := range []int{0, 1, 252, 253, 254, 255, 256, 257, n - 2, n - 1} {
+			if i >= 0 && i < n {
+				elems = append(elems, I(v(i)))
+			}
+		}
+		// the same references from inside a function (its CONST operands are rewritten too)
+		body := []Stmt{&Return{X: &ArrayLit{Elems: []Expr{N(fmt.Sprint(1000 + n - 1)), N(fmt.Sprint(1000 + n/2)), N("1000"), S(`"dup"`)}}}}
+		main = append(main, Def("f", &FuncLit{Body: body}), Def("out", &ArrayLit{Elems: append(elems, C(I("f")))}), Set(I("f"), Undef()))
+		return &Program{Main: main}
 	case "consts-closure":
 		// n distinct constants, then (inside a function) a closure that captures a local: its CLOSURE operand is >= n
 		var main []Stmt
